@@ -21,5 +21,5 @@ TStep == /\ l <= Len(TraceLog) /\ l' = l + 1
             \/ e.e = "Step" /\ Step(V(e)) /\ Matches(e)
             \/ e.e = "NewRun" /\ NewRun /\ Matches(e)
 TSpec == TInit /\ [][TStep]_<<cvars, l>>
-Progress == PrintT(<<"MAXL", l>>)
+Progress == PrintT(<<"MAXL", l>>) /\ ((started /\ Cross /\ acfN >= 1 /\ ~CrossTextbook) => PrintT(<<"QUIRK", "cross-correlation-of-other-variable-only", l>>))
 =============================================================================
